@@ -104,7 +104,7 @@ func (vc *VC) verify() (obls []*Obligation, err error) {
 		if !ok {
 			return
 		}
-		v := vc.loaded(s, o.Type(), Const(smtName(o.Name())+"0."+vc.runTag, sortOf(o.Type())), o.Name())
+		v := vc.loadedDeep(s, o.Type(), Const(smtName(o.Name())+"0."+vc.runTag, sortOf(o.Type())), o.Name())
 		paramVals[o] = v
 		vc.bindParam(s, o, v)
 	}
